@@ -30,6 +30,7 @@ MODEL_FIELDS = {
     "swapctl": ["_"],
     "setup": ["_"],
     "drybegin": ["_"],
+    "escrowfund": ["_"],
     "dryend": ["_"],
     "cmpstacks": ["same"],
     "cb": ["same"],
@@ -45,7 +46,7 @@ class Step:
         self.op = line.split(" ", 1)[0]
         self.impl_raw = impl_raw
         self.model_raw = model_raw
-        if self.op in ("pure", "deposit", "fault", "swapctl", "setup", "drybegin", "dryend"):
+        if self.op in ("pure", "deposit", "fault", "swapctl", "setup", "drybegin", "dryend", "escrowfund"):
             # single-token results (may contain '='): compared as a whole; the model may append " #<guard tag>" for the evidence
             tag = None
             if " #" in model_raw:
